@@ -22,7 +22,7 @@ static BusActivation A; static BusActivationEntry E; static char e_exec[] = "/bi
 struct {
   struct { _Bool systemd_activation, entry_found, policy_ok, active, sd_active, helper, entry_has_user, entry_has_unit, argv_ok, env_ok, envp_ok, spawn_ok, watch_ok, sd_dispatch_ok; int limit; } in;
   BusPendingActivation *map[2]; _Bool was_pending[2];
-  unsigned lookups, policy_checks, driver_sends, msg_refs, msg_unrefs, conn_refs, conn_unrefs, sig_refs, sig_unrefs, appended[2], inserted[2], removed[2], freed[2], released_entries,
+  unsigned lookups, policy_checks, driver_sends, msg_refs, msg_unrefs, conn_refs, conn_unrefs, sig_refs, sig_unrefs, appended[2], inserted[2], removed[2], freed[2], released_entries, prepended,
            hooks, timeouts_new, timeouts_added, spawns, sd_dispatches, txn2_new, txn2_exec, txn2_cancel, captures, reply_unrefs;
   BusPendingActivationEntry *held[2]; _Bool spawn_argv_helper, spawn_argv_exec;
   void *hook_data[2]; unsigned held_released[2];
@@ -86,6 +86,9 @@ dbus_bool_t _dbus_list_append (DBusList **list, void *data)
 { BusPendingActivation *owner = (BusPendingActivation *)((char *)list - offsetof(BusPendingActivation, entries));      /* the list is the `entries` member of a pending activation */
   PRE(owner->service_name != NULL, "_dbus_list_append: waiter list of a named pending activation"); int k = KEY(owner->service_name); BusPendingActivationEntry *e = data;
   PRE(e != NULL && e->activation_message != NULL, "_dbus_list_append: a pending-activation entry"); if (nondet_bool()) return 0; G.appended[k]++; G.held[k] = e; *list = (DBusList *)e; return 1; }
+/* a waiter must go to the END of the list: bus_activation_send_pending_auto_activation_messages walks it first to last and the
+ * property promises delivery "in arrival order".  A prepend is recorded and refuted by post-order below. */
+dbus_bool_t _dbus_list_prepend (DBusList **list, void *data) { G.prepended++; return _dbus_list_append (list, data); }
 DBusTimeout *_dbus_timeout_new (int interval, DBusTimeoutHandler handler, void *data, DBusFreeFunction f) { PRE(handler == pending_activation_timed_out && data != NULL, "_dbus_timeout_new: start timeout of this pending activation"); if (nondet_bool()) return NULL; G.timeouts_new++; return (DBusTimeout *)&o_timeout; }
 dbus_bool_t _dbus_loop_add_timeout (DBusLoop *l, DBusTimeout *t) { if (nondet_bool()) return 0; G.timeouts_added++; return 1; }
 dbus_bool_t bus_transaction_add_cancel_hook (BusTransaction *t, BusTransactionCancelFunction f, void *data, DBusFreeFunction ff)
@@ -154,6 +157,7 @@ void harness (void)
   _Bool replied_running = ret && G.driver_sends == 1;
   __CPROVER_assert(G.spawns <= 1, "post1 at most one spawn per request");
   __CPROVER_assert(IMP(G.was_pending[k], G.spawns == 0 && G.sd_dispatches == 0 && G.txn2_new == 0), "post2 a request for a name whose activation is pending joins it: no second spawn, no second systemd request (ACT_ONE_SPAWN)");
+  __CPROVER_assert(G.prepended == 0, "post-order a held request is appended at the end of the waiter list (messages are later delivered first to last = arrival order)");
   __CPROVER_assert(IMP(old_count >= G.in.limit, !ret && G.lookups == 0 && G.msg_refs == 0 && G.appended[0] + G.appended[1] == 0 && A.n_pending_activations == old_count), "post3 at the limit of pending activations the request is refused before anything is touched (C13)");
   __CPROVER_assert(IMP(!ret, ERR_SET(&err)), "post4 refusal carries an error (S5)");
   __CPROVER_assert(IMP(ret && !replied_running, G.map[k] != NULL && G.appended[k] == 1 && G.held[k] != NULL && G.held[k]->activation_message == (DBusMessage *)&o_msg && G.held[k]->connection == (DBusConnection *)&o_conn && (G.held[k]->auto_activation != 0) == (auto_activation != 0)),
